@@ -158,7 +158,7 @@ func variantsEsc(v *rj.Value, withEscapes bool) []string {
 	}
 	// whitespace at every gap class
 	var sb strings.Builder
-	sb.WriteString(" \n")
+	sb.WriteString("\r \n\t")
 	inStr, esc := false, false
 	for i := 0; i < len(base); i++ {
 		c := base[i]
